@@ -198,6 +198,16 @@ TABLE = {
             "the head only under head.tick_time <= row time (empty cell before a tag's first value). Each is necessary for "
             "sample-and-hold on every plot log; R34d/R34e were violated by the pinned tree and are repaired (fixed entry).",
             "Decides these structural clauses of csv_generator.py, not the emitted text for concrete plot logs (value-level)."),
+    "C29": ("watermark discipline: who-may-call, guard dominance of the throttle condition, dataflow shape of the selection "
+            "filter and of the stamp, write-after-store pairing and ownership of the watermark",
+            "Plot-log values are stored from exactly one function; the store is dominated by has_run() and a throttle "
+            "condition comparing (max current tick time - watermark) with the data-log interval; the persisted list is a "
+            "comprehension of copies filtered strictly newer than the same watermark; all of them are stamped with the max of "
+            "their own tick times before the store; every path after the store moves the watermark to that stamp and nothing "
+            "else writes it; upsert overwrites value and time together. These give strictly increasing recorded times, one "
+            "write per interval and recorded-time >= reported-time for every message stream, because they hold on all paths.",
+            "Decides the watermark discipline, not numeric outcomes for concrete streams; database behaviour is outside. "
+            "Observation recorded in the rule text: a run restored after a reconnect restarts with an empty watermark."),
     "C01": ("state-carriage completeness, self-lookup rule, origin-token (alias) propagation and validate-before-commit dominance",
             "Every runtime attribute the interpreter layer writes on AST nodes must be carried by extract_state/apply_state of "
             "its declaring class; lookups of a node id that may be the receiver's own must pass include_self=True; symbolic "
@@ -304,8 +314,6 @@ TABLE = {
 DESIGN_NA = {
     "C25": "permutation/partition law over runtime register lists and values; the implementation is two short loops and "
            "any structural rule would merely restate them (no necessary condition weaker than the code itself)",
-    "C29": "strict ordering and at-most-once-per-interval are numeric relations over runtime timestamps of a message "
-           "stream; the only shape facts (strict > in two comparisons) would be frozen-fragment checks",
 }
 
 ALL_IDS = [f"C{i:02d}" for i in range(1, 42)]
